@@ -17,6 +17,8 @@ mod c13;
 mod c14;
 mod c15;
 mod c18;
+mod c19;
+mod c20;
 mod guard;
 mod c10;
 mod c16;
@@ -51,6 +53,11 @@ fn main() {
         "C16" => run_prop(c16::C16, &opts),
         "C17" => run_prop(c17::C17, &opts),
         "C18" => c18::run(&opts),
+        "C19" => run_prop(c19::C19, &opts),
+        "C20" => {
+            let p = c20::prepare(&opts.root, opts.tier);
+            run_prop(p, &opts)
+        }
         o => {
             eprintln!("unknown property {o}");
             std::process::exit(2);
